@@ -319,6 +319,11 @@ impl<const H: usize> Writer<H> {
         self.flushed_offset.set(offset);
         self.write_offset = offset;
 
+        // Move the physical file cursor back as well: the buffered writer keeps appending at
+        // the cursor, so without this the next record would land past the truncation marker
+        // instead of at `offset` (the offset `append` reports for it).
+        self.writer.seek(SeekFrom::Start(offset))?;
+
         // Write full zero header as clear truncation marker
         let zero_header = [0u8; RECORD_HEAD_SIZE];
         self.writer.get_ref().write_all_at(&zero_header, offset)?;
